@@ -246,6 +246,44 @@ func c01SlotSignals(c *fw.Ctx) {
 	}
 }
 
+// c01Hazards: programs outside what the model defines but inside C01's "no crash" claim: loops whose body changes the
+// very container being iterated, and prototype method cells obtained without a receiver (through pluck) and called.
+func c01Hazards(c *fw.Ctx) {
+	muts := []string{"x.pop()", "x.popfirst()", "x.push(9)", "x[0] = 7", "x[9] = 1", "x = []", "x = 5", "x.k = 1", "$.q.pop()", "$.q = null", "x.sort().pop()"}
+	heads := []string{"for (v in x)", "for (v, i in x)", "for (v in $.q)", "for (i = 0; i < x.length(); i++)", "while (x.length() > 0 && n++ < 9)"}
+	inits := []string{"x = $.q", "x = [1, 2, 3, 4]", "x = {a: 1, b: 2, c: 3}", "x = \"abcd\""}
+	for _, in := range inits {
+		for _, h := range heads {
+			for _, m1 := range muts {
+				for _, m2 := range append([]string{""}, muts[:4]...) {
+					prog := "{ " + in + "; " + h + " { print v; " + m1 + "; " + m2 + " } print x, $ }"
+					s := c01Spec{Form: "text", Program: prog, Data: `{"q":[1,2,3,4]}`, HasData: true, Fuzzing: true}
+					c.Do(func() any { return s }, func() *fw.Violation { return c01RunOne(c, s) })
+				}
+			}
+		}
+	}
+	c.State("loops that mutate their iterable")
+	args := []string{"", "1", "\"a\"", "\"a\", \"b\"", "[1]", "null", "$", "\"pluck\""}
+	for _, recv := range []string{"$", "{a: 1}", "[1, 2]", "\"str\"", "(5)"} {
+		for _, m := range []string{"length", "pluck", "push", "pop", "popfirst", "contains", "sort", "split", "lower", "upper", "floor", "ceil", "round", "nosuch"} {
+			for _, a := range args {
+				progs := []string{
+					"{ for (k, v in " + recv + ".pluck(\"" + m + "\")) { r = v(" + a + "); print r } }",
+					"{ o = " + recv + ".pluck(\"" + m + "\", \"x\"); for (k, v in o) { print k; r = v(" + a + ") } print o }",
+					"{ match (" + recv + "." + m + ") { f => f(" + a + ") } }",
+					"function g() { return " + recv + "." + m + " } { r = g()(" + a + "); print r }",
+				}
+				for _, prog := range progs {
+					s := c01Spec{Form: "text", Program: prog, Data: `{"a":1,"length":2}`, HasData: true, Fuzzing: true}
+					c.Do(func() any { return s }, func() *fw.Violation { return c01RunOne(c, s) })
+				}
+			}
+		}
+	}
+	c.State("method cells called without a fresh lookup")
+}
+
 func c01CLI(c *fw.Ctx, s c01Spec) *fw.Violation {
 	var argv []string
 	for _, e := range s.Sels {
@@ -546,7 +584,7 @@ func init() {
 			"every live prefix that parses is run on 5 inputs (array, scalar, object, none, truncated) with the loop limit on and off and its root serialised, every live prefix is also used as a -r selector; a deeper search over a 27-spelling sub-alphabet that still spells every rule kind, functions, loops, match and all five signals; " +
 			"(b) the signal placement matrix {next, exit, return, return 1, break, continue} x 8 rule-level places (BEGIN, END, BEGINFILE, ENDFILE, pattern rule, pattern expression, selector, second selector) x directly / in a called function x two nested statement contexts out of 8 x 3 inputs, in-process and through the real binary; " +
 			"(c) all byte strings up to a length over 48 bytes (quotes, backslash, NUL, CR, stray UTF-8 bytes, every operator byte) as program, selector and JSON input, and the complete 1-edit neighbourhood (insert / replace / delete x those bytes x every offset) of every program and input of the repository's test table; " +
-			"(d) 11 expression and 3 statement nesting shapes repeated up to 64 KiB, closed and unclosed, as program and selector, on the real binary under ulimit; oracle: success, SyntaxError, RuntimeError or JsonError, no panic, no other error value, no stack trace; states = live prefixes / byte strings; non-trivial = signal placements",
+			"(c') loops whose body mutates the container they iterate (pop / popfirst / push / stores / rebinding, through the name or an alias) and prototype method cells obtained through pluck, match bindings or return values and then called; (d) 11 expression and 3 statement nesting shapes repeated up to 64 KiB, closed and unclosed, as program and selector, on the real binary under ulimit; oracle: success, SyntaxError, RuntimeError or JsonError, no panic, no other error value, no stack trace; states = live prefixes / byte strings; non-trivial = signal placements",
 		Plan: func(t fw.Tier) int { return nt*nt + nn*nn + 2*matrixParts + nb + 64 + 1 },
 		Bound: func(t fw.Tier) string {
 			f, n, b := depth(t)
@@ -596,6 +634,7 @@ func init() {
 				c.Note("corpus programs", int64(len(corpus)))
 			default:
 				c01SlotSignals(c)
+				c01Hazards(c)
 				c01DeepAll(c)
 			}
 		},
